@@ -35,7 +35,7 @@ with u_args (es : exprs) : list name :=
       (match e with
        | EFuncLit ps res body =>
            match body with
-           | SCons (SReturn rs) SNil => if Nat.eqb (elen rs) (res_count res) then u_es rs else u_ss body
+           | SCons (SReturn rs) SNil => if lam_ok res rs then u_es rs else u_ss body
            | _ => u_ss body
            end
        | _ => u_e e
@@ -58,7 +58,7 @@ Definition u_arg (im : list (name * str)) (e : expr) : list name :=
   match e with
   | EFuncLit ps res body =>
       match body with
-      | SCons (SReturn rs) SNil => if Nat.eqb (elen rs) (res_count res) then u_es im rs else u_ss im body
+      | SCons (SReturn rs) SNil => if lam_ok res rs then u_es im rs else u_ss im body
       | _ => u_ss im body
       end
   | _ => u_e im e
@@ -156,7 +156,7 @@ Proof.
                           | EFuncLit ps res body =>
                               match body with
                               | SCons (SReturn rs) SNil =>
-                                  if Nat.eqb (elen rs) (res_count res)
+                                  if lam_ok res rs
                                   then let '(r', u) := tr_exprs c rs in (ELambda ps r', u)
                                   else let '(b', u) := tr_block c body in (ELambda2 ps b', u)
                               | _ => let '(b', u) := tr_block c body in (ELambda2 ps b', u)
@@ -167,7 +167,7 @@ Proof.
                      | EFuncLit ps res body =>
                          match body with
                          | SCons (SReturn rs) SNil =>
-                             if Nat.eqb (elen rs) (res_count res) then u_es (imps c) rs else u_ss (imps c) body
+                             if lam_ok res rs then u_es (imps c) rs else u_ss (imps c) body
                          | _ => u_ss (imps c) body
                          end
                      | _ => u_e (imps c) e
@@ -178,7 +178,7 @@ Proof.
         { destruct (tr_block c body) as [b' u]. simpl in *. congruence. }
         destruct body as [|s0 rest]; [exact Hblock|].
         destruct s0; try exact Hblock. destruct rest; [|exact Hblock].
-        destruct (Nat.eqb (elen r) (res_count res)); [|exact Hblock].
+        destruct (lam_ok res r); [|exact Hblock].
         simpl in Hs. change (u_ss (imps c) (SCons (SReturn r) SNil)) with (u_es (imps c) r ++ []) in Hs.
         destruct (tr_exprs c r) as [r' u]. simpl in Hs |- *. rewrite !app_nil_r in Hs. exact Hs. }
       destruct (match e with EFuncLit _ _ _ => _ | _ => _ end) as [e' u1].
@@ -298,7 +298,7 @@ Proof.
         destruct body as [|s0 rest]; [apply Hgen; exact H|].
         destruct s0; try (apply Hgen; exact H).
         destruct rest; [|apply Hgen; exact H].
-        destruct (Nat.eqb (elen r) (res_count res)); [|apply Hgen; exact H].
+        destruct (lam_ok res r); [|apply Hgen; exact H].
         simpl in H.
         change (u_ss im (SCons (SReturn r) SNil)) with (u_es im r ++ []) in Hgen. rewrite app_nil_r in Hgen.
         apply Hgen. change (t_ss im (SCons (SReturn r) SNil)) with (SCons (SReturn (t_es im r)) SNil).
